@@ -27,7 +27,7 @@ BOUND = {"quick": "deviation bound d=2 around the centre of 2 Voronoi bases (+1 
 ASSUMPTIONS = ["a two-point interface is the straight segment through its two points",
                "fit budget (L2): taubinSVD 1e-9 on any curved arc; dlite 1e-7 on arcs turning >= 0.1 rad (leastsq termination tolerance), 5e-3 on flatter arcs; collinear points exact; translations <= 10 tissue sizes",
                "L1 uses the library's public calculate_circle_center for the centre (fit accuracy is judged separately by L2)"]
-REQUIRED_TAGS = {"all": ["rows>0", "straight", "curved", "two_point", "ignore_four", "taubin", "fourfold", "axis_aligned", "lens", "mixed_point_counts", "rebuilt"]}
+REQUIRED_TAGS = {"all": ["rows>0", "straight", "curved", "two_point", "ignore_four", "taubin", "fourfold", "axis_aligned", "lens", "mixed_point_counts", "rebuilt", "rebuilt_other_objects", "shared_options_object"]}
 
 L1_TOL = 1e-11
 
@@ -47,7 +47,7 @@ def unit(z):
     return z / abs(z)
 
 
-def evaluate_matrix(at, k, cm, fit, ignore_four, lab=None, want_obs=False, prebuilds=()):
+def evaluate_matrix(at, k, cm, fit, ignore_four, lab=None, want_obs=False, prebuilds=(), metadata=None):
     """build the tissue, the frame and the ForceMatrix; judge it. Returns result dict pieces."""
     import forsys as fs
     import forsys.virtual_edges as ve
@@ -59,7 +59,7 @@ def evaluate_matrix(at, k, cm, fit, ignore_four, lab=None, want_obs=False, prebu
     for kw in prebuilds:
         # earlier builds on the same objects, with other options: the judged build below must not see any trace of them
         fsutil.call(s.build_force_matrix, when=0, **kw)
-    _, ex = fsutil.call(s.build_force_matrix, when=0, circle_fit_method=fit, metadata={"ignore_four": ignore_four}, angle_limit=np.inf)
+    _, ex = fsutil.call(s.build_force_matrix, when=0, circle_fit_method=fit, metadata=metadata if metadata is not None else {"ignore_four": ignore_four}, angle_limit=np.inf)
     if ex is not None:
         return [{"what": "build_force_matrix raised", "detail": fsutil.exc_str(ex)}], known, tags, None
     fm = s.force_matrices[0]
@@ -421,10 +421,35 @@ def eval_rebuild(d):
             kws.append({"metadata": {"ignore_four": True}})
         elif p_ == "default":
             kws.append({})
-    viol, known, tags, obs = evaluate_matrix(at, 3, cm, d["fit"], False, prebuilds=kws)
+    if pre == ["shared_options_object"]:
+        # the caller keeps ONE options dict and passes it to every build (a loop over fits or frames): the second build must
+        # still see ignore_four=True
+        md = {"ignore_four": True}
+        viol, known, tags, obs = evaluate_matrix(at, 3, cm, d["fit"], True, prebuilds=[{"metadata": md, "circle_fit_method": "taubinSVD"}], metadata=md)
+        for v in viol:
+            v["what"] = "[second build with the same options dict object] " + v["what"]
+        return {"viol": viol, "known": known, "tags": list(tags) + ["rebuilt", "rebuilt_same_objects", "shared_options_object"],
+                "cls": "%s/%s/%s/shared-options" % (d["base"], d["mob"][0], d["fit"]), "nontrivial": True}
+    if d.get("other"):
+        # the earlier builds happen on OTHER objects (another ForSys of the same tissue in the same process): state shared
+        # between objects (class attributes, mutable defaults, module globals) must not reach the judged, freshly built objects
+        for kw in kws:
+            at2 = bases.get(d["base"])
+            with fsutil.quiet():
+                import forsys as fs
+                v2, e2, c2, _ = T.realise(at2, k=3, cmap=cm)
+                s2 = fs.ForSys({0: T.frame_of(v2, e2, c2)})
+            fsutil.call(s2.build_force_matrix, when=0, **kw)
+            fsutil.call(s2.solve_stress, when=0)
+        viol, known, tags, obs = evaluate_matrix(at, 3, cm, d["fit"], False)
+        where = "on other objects in the same process"
+    else:
+        viol, known, tags, obs = evaluate_matrix(at, 3, cm, d["fit"], False, prebuilds=kws)
+        where = "on the same objects"
     for v in viol:
-        v["what"] = "[after earlier builds %s on the same objects] %s" % (pre, v["what"])
-    return {"viol": viol, "known": known, "tags": list(tags) + ["rebuilt"], "cls": "%s/%s/%s/%s" % (d["base"], d["mob"][0], d["fit"], "+".join(pre)), "nontrivial": True}
+        v["what"] = "[after earlier builds %s %s] %s" % (pre, where, v["what"])
+    return {"viol": viol, "known": known, "tags": list(tags) + ["rebuilt", "rebuilt_other_objects" if d.get("other") else "rebuilt_same_objects"],
+            "cls": "%s/%s/%s/%s/%s" % (d["base"], d["mob"][0], d["fit"], "+".join(pre), bool(d.get("other"))), "nontrivial": True}
 
 
 def build(tier, seed):
@@ -434,13 +459,13 @@ def build(tier, seed):
                 SubTissues("fan5", [2, ["mod3", 0, 3, 1]], [["id"], ["m", 0.05, 0.02]]),       # many-fold junctions ON the border
                 SubTissues("square3x3", [1], [["m", 0.05, 0.02]]),
                 Lattices(["square4x4", "brick4x4", "hex3x3", "fan5", "fan6", "fan4", "lens"], 12),
-                ListSystem("rebuilds", [{"base": b, "mob": m, "fit": f, "pre": pre, "rot": 0.1234 + 0.37 * seed}
-                                        for b in ("v5x5", "fan5") for m in (["m", 0.05, 0.02], ["id"]) for f in ("dlite", "taubinSVD")
-                                        for pre in (["excluding"], ["pi"], ["other_fit"], ["ignore_four"], ["excluding", "default"], ["ignore_four", "excluding"])], eval_rebuild)]
+                ListSystem("rebuilds", [{"base": b, "mob": m, "fit": f, "pre": pre, "rot": 0.1234 + 0.37 * seed, "other": oth}
+                                        for oth in (False, True) for b in ("v5x5", "fan5") for m in (["m", 0.05, 0.02], ["id"]) for f in ("dlite", "taubinSVD")
+                                        for pre in (["excluding"], ["pi"], ["other_fit"], ["ignore_four"], ["excluding", "default"], ["ignore_four", "excluding"], ["shared_options_object"])], eval_rebuild)]
     return [Geometry(["v5x5"], 3, 24, seed),
             Geometry(["v6x5", "v6x6", "v5x4p%d" % (seed + 1)], 2, 48, seed),
             SubTissues("v5x5", [0, 1, 2, 5], [["id"], ["m", 0.05, 0.02], ["mc", 0.12, 0.05]]),
             Lattices(["square4x4", "brick4x4", "hex3x3", "fan5", "fan6", "fan4", "lens"], 48),
-            ListSystem("rebuilds", [{"base": b, "mob": m, "fit": f, "pre": list(pre), "rot": 0.1234 + 0.37 * seed}
-                                    for b in ("v5x5", "v6x5", "fan5", "square4x4", "lens") for m in (["m", 0.05, 0.02], ["id"], ["mc", 0.12, 0.05]) for f in ("dlite", "taubinSVD")
-                                    for n_ in (1, 2) for pre in itertools.product(["excluding", "pi", "other_fit", "ignore_four", "default"], repeat=n_)], eval_rebuild)]
+            ListSystem("rebuilds", [{"base": b, "mob": m, "fit": f, "pre": list(pre), "rot": 0.1234 + 0.37 * seed, "other": oth}
+                                    for oth in (False, True) for b in ("v5x5", "v6x5", "fan5", "square4x4", "lens") for m in (["m", 0.05, 0.02], ["id"], ["mc", 0.12, 0.05]) for f in ("dlite", "taubinSVD")
+                                    for n_ in (1, 2) for pre in list(itertools.product(["excluding", "pi", "other_fit", "ignore_four", "default"], repeat=n_)) + ([["shared_options_object"]] if n_ == 1 else [])], eval_rebuild)]
